@@ -72,10 +72,10 @@ def ofBytes (s : List Nat) (size : Option Nat := none) (bitorder : Int := -1) : 
   | none => pure b
   | some n => pure (b.setSize n)
 
-/-- `Bits.bit(i)` -/
+/-- `Bits.bit(i)` (after the `fix:` that makes index 0 of an empty vector an IndexError) -/
 def bit (b : Bits) (i : Int) : Except Err Nat :=
   if 0 ≤ i ∧ i < b.size then .ok ((b.ival >>> i.toNat) &&& 1)
-  else if 0 ≤ -i ∧ -i ≤ b.size then .ok ((b.ival >>> (b.size + i).toNat) &&& 1)
+  else if 0 < -i ∧ -i ≤ b.size then .ok ((b.ival >>> (b.size + i).toNat) &&& 1)
   else .error "IndexError"
 
 /-- `Bits.int(sign)` -/
@@ -137,7 +137,7 @@ def setInt (b : Bits) (i : Int) (v : Nat) : Except Err Bits :=
   if v ≠ 0 ∧ v ≠ 1 then .error "AssertionError" else
   let p? : Option Nat :=
     if 0 ≤ i ∧ i < b.size then some i.toNat
-    else if 0 ≤ -i ∧ -i < (b.size : Int) + 1 then some (b.size + i).toNat
+    else if 0 < -i ∧ -i < (b.size : Int) + 1 then some (b.size + i).toNat
     else none
   match p? with
   | none => .error "IndexError"
@@ -192,6 +192,31 @@ def rsub (a : Bits) (lvalue : Nat) : Bits := sub (ofNat lvalue) a
 
 /-- `a // b` -/
 def concat (a o : Bits) : Bits := ofNatSz (a.ival ||| (o.ival <<< a.size)) (a.size + o.size)
+
+/-- the mutating API as data: one step of a history of a single vector
+    (`b[i]=v`, `b[s:e:k]=v`, `b[list]=v`, `b.size=n`, `b.zeroextend(n)`, `b.signextend(n)`);
+    right-hand values are already converted by `Bits(v)` -/
+inductive MutOp where
+  | setInt (i : Int) (v : Nat)
+  | setSlice (start stop step : Option Int) (v : Bits)
+  | setList (idx : List Int) (v : Bits)
+  | setSize (n : Nat)
+  | zeroextend (n : Nat)
+  | signextend (n : Nat)
+deriving Repr
+
+def applyOp (b : Bits) : MutOp → Except Err Bits
+  | .setInt i v => b.setInt i v
+  | .setSlice s e st v => b.setSlice s e st v
+  | .setList idx v => b.setList idx v
+  | .setSize n => .ok (b.setSize n)
+  | .zeroextend n => .ok (b.zeroextend n)
+  | .signextend n => b.signextend n
+
+/-- a history: the ops applied in order, stopping at the first exception -/
+def runOps (b : Bits) : List MutOp → Except Err Bits
+  | [] => .ok b
+  | op :: ops => do let b' ← b.applyOp op; runOps b' ops
 
 def hw (b : Bits) : Nat := (b.toBitList.filter (· = 1)).length
 def hd (a o : Bits) : Except Err Nat := if a.size ≠ o.size then .error "ValueError" else .ok (a.xor o).hw
